@@ -27,6 +27,8 @@ def fair_event(c):
             except (KeyboardInterrupt, SystemExit, MemoryError):
                 raise
             except BaseException as ex:
+                if type(ex).__name__ == 'CaseTimeout':
+                    raise
                 return ('exc', type(ex).__name__, str(ex)[:100])
         out = mcfam.with_time_limit(run, 20.0)
     else:
